@@ -10,8 +10,9 @@ zlib is an abstract parameter `Z`.
 Read side: `readContainers` mirrors `compressedFile2UncompressedFile` + `compressedFileReadThread`
 (on a sticky `std::fstream`), `parseStream` mirrors `uncompressedFile2ReadWriteQueue` +
 `uncompressedFileReadThread` on the non-sticky in-memory stream.  Outcome `hang` stands for an
-execution in which `File::read()` never returns (a worker died with a foreign exception without
-declaring the end of its stream, or a worker loops forever); `oob` for undefined behaviour.
+execution in which `File::read()` never returns (a worker loops forever); `oob` for undefined
+behaviour.  A worker that ends with a foreign exception (`std::bad_alloc` from an absurd length
+field) declares the end of its stream like one that ends with the library's `Exception`.
 -/
 namespace Blf.FileSeq
 open Blf
@@ -76,7 +77,7 @@ def containerStep (Z : Zlib) (cap : Nat) (cs : CState) : Option CState :=
     if h.obj.num 4 ≠ 10 then none                               -- not a log container -> Exception
     else
       let r := Gen.LogContainer.readProg.exec cfg { st1 with obj := Gen.LogContainer.fresh, halt := .none }
-      if r.halt = .badAlloc then some { cs with st := r, died := true }
+      if r.halt = .badAlloc then some { cs with st := r, stop := true }      -- std::bad_alloc: worker ends, end of stream declared
       else if r.halt ≠ .none then none
       else if !r.good then none
       else
@@ -84,9 +85,10 @@ def containerStep (Z : Zlib) (cap : Nat) (cs : CState) : Option CState :=
         let usize := cs.usize + 32 + lc.num 8
         let method := lc.num 5
         if method = 0 then
-          some { st := r, conts := { size := lc.num 8, data := lc.buf 10 } :: cs.conts, usize := usize }
+          if lc.num 8 ≠ (lc.buf 10).length then some { cs with st := r, usize := usize, stop := true }   -- "unexpected uncompressedSize"
+          else some { st := r, conts := { size := lc.num 8, data := lc.buf 10 } :: cs.conts, usize := usize }
         else if method = 2 then
-          if cap < lc.num 8 then some { cs with st := r, usize := usize, died := true }   -- resize throws
+          if cap < lc.num 8 then some { cs with st := r, usize := usize, stop := true }   -- resize throws std::bad_alloc
           else match Z.inflate (lc.buf 10) (lc.num 8) with
             | some d => some { st := r, conts := { size := lc.num 8, data := d } :: cs.conts, usize := usize }
             | none => some { cs with st := r, usize := usize, stop := true }   -- zlib error / size mismatch -> Exception
@@ -129,6 +131,8 @@ def objectStep (cap : Nat) (ps : PState) : Option PState :=
   else
     let st1 := h.sback 16
     let osz := h.obj.num 3
+    if osz < 16 then none                                       -- "Object size smaller than object header"
+    else
     match lookupClass (h.obj.num 4) with
     | none =>
       -- unknown type: seek forward by objectSize from the object start
@@ -137,7 +141,7 @@ def objectStep (cap : Nat) (ps : PState) : Option PState :=
       let fresh := c.fresh
       let csz := c.sizeExpr.eval fresh
       let r := c.readProg.exec cfg { st1 with obj := fresh, halt := .none }
-      if r.halt = .badAlloc then some { ps with st := r, outcome := some .hang }
+      if r.halt = .badAlloc then none                           -- std::bad_alloc: worker ends, end of stream declared
       else if r.halt = .oob then some { ps with st := r, outcome := some .oob }
       else if r.halt = .exc then none
       else if !r.good then none                                 -- "Read beyond end of file": object dropped
